@@ -94,3 +94,60 @@ fn c14_quartic_add_sub() {
     assert!(bits_eq(t.k, a.k + v) && bits_eq(t.u, a.u), "[spec] translate adds c to k only");
     kani::cover!(true, "[cover] reachable");
 }
+
+// ------------------------------------------------------------------------------------------- C17: approximate equality
+const TOLS: [f64; 2] = [0.0, 1.0];
+/// (epsilon, max_relative) pairs: distinct so that swapped tolerances are visible
+const RELS: [(f64, f64); 2] = [(0.0, 0.5), (1.0, 0.0)];
+/// integer-valued doubles in [-8, 8] for the approx harnesses (float comparisons against products are costly in CBMC)
+fn tiny_any() -> f64 { let v: i8 = kani::any(); kani::assume(v >= -8 && v <= 8); v as f64 }
+#[kani::proof]
+#[kani::unwind(8)]
+fn c17_log_wrappers() {
+    let (a0, a1, b0, b1, ka, kb) = (tiny_any(), tiny_any(), tiny_any(), tiny_any(), tiny_any(), tiny_any());
+    let (pa, pb) = (Poly1([a0, a1]), Poly1([b0, b1]));
+    let fa = IntOfLog { k: ka, poly: pa };
+    let fb = IntOfLog { k: kb, poly: pb };
+    let mut ei = 0;
+    while ei < TOLS.len() {
+        let eps = TOLS[ei];
+        let lanes = a0.abs_diff_eq(&b0, eps) && a1.abs_diff_eq(&b1, eps);
+        assert!(Log(pa).abs_diff_eq(&Log(pb), eps) == lanes, "[spec] Log: abs_diff_eq is number-by-number");
+        assert!(fa.abs_diff_eq(&fb, eps) == (lanes && ka.abs_diff_eq(&kb, eps)), "[spec] IntOfLog: additive constant and every coefficient");
+        ei += 1;
+    }
+    let mut ri = 0;
+    while ri < RELS.len() {
+        let (eps, mr) = RELS[ri];
+        let lr = a0.relative_eq(&b0, eps, mr) && a1.relative_eq(&b1, eps, mr);
+        assert!(Log(pa).relative_eq(&Log(pb), eps, mr) == lr, "[spec] Log: relative_eq is number-by-number");
+        assert!(fa.relative_eq(&fb, eps, mr) == (lr && ka.relative_eq(&kb, eps, mr)), "[spec] IntOfLog: relative_eq is number-by-number");
+        ri += 1;
+    }
+    kani::cover!(true, "[cover] reachable");
+}
+#[kani::proof]
+#[kani::unwind(8)]
+fn c17_quartic() {
+    let a = IntOfLogPoly4 { k: tiny_any(), coeffs: [tiny_any(), tiny_any(), tiny_any(), tiny_any()], u: tiny_any() };
+    let b = IntOfLogPoly4 { k: tiny_any(), coeffs: [tiny_any(), tiny_any(), tiny_any(), tiny_any()], u: tiny_any() };
+    let mut ei = 0;
+    while ei < TOLS.len() {
+        let eps = TOLS[ei];
+        let mut want = a.k.abs_diff_eq(&b.k, eps) && a.u.abs_diff_eq(&b.u, eps);
+        let mut i = 0;
+        while i < 4 { want = want && a.coeffs[i].abs_diff_eq(&b.coeffs[i], eps); i += 1; }
+        assert!(a.abs_diff_eq(&b, eps) == want, "[spec] IntOfLogPoly4: abs_diff_eq over k, c1..c4, u");
+        ei += 1;
+    }
+    let mut ri = 0;
+    while ri < RELS.len() {
+        let (eps, mr) = RELS[ri];
+        let mut wr = a.k.relative_eq(&b.k, eps, mr) && a.u.relative_eq(&b.u, eps, mr);
+        let mut i = 0;
+        while i < 4 { wr = wr && a.coeffs[i].relative_eq(&b.coeffs[i], eps, mr); i += 1; }
+        assert!(a.relative_eq(&b, eps, mr) == wr, "[spec] IntOfLogPoly4: relative_eq over k, c1..c4, u with the same tolerances");
+        ri += 1;
+    }
+    kani::cover!(true, "[cover] reachable");
+}
